@@ -11,7 +11,7 @@ func init() {
 	propFuncs["C09"] = propC09
 	propInfos["C09"] = &PropInfo{
 		Level:   "other",
-		Explain: "Structural necessary conditions decided statically (DESIGN.md §5 C09): Sample.Copy — Xs and Weights element-for-element copies of the same length (copy, append to an empty slice, or a full element loop), Weights nil exactly when the receiver's is, Sorted kept; vec.Concat — len(result) = Σ len(xss[i]) and argument i copied behind the arguments before it (front to back with a running position, appended in order, or filled from the back), for every i; vec.Vectorize(f)(xs) = Map(f, xs); engine A — Sample.Copy and the vec helpers return memory sharing nothing with their inputs, no query writes its argument, Sort writes exactly the documented paths; C-swap — sampleSorter.Swap exchanges (i,j) in both xs and weights, Sort hands both slices of the same receiver to the sorter and sets Sorted; engine B — the incremental recurrences of Mean, weighted Mean, GeoMean (log/exp), Variance (Welford) with the n-1 denominator, StdDev, weighted Sum, Weight, vec.Sum, the element formulas of Linspace, Logspace, Map; decision lists for empty input (NaN), len<=1 (variance 0), non-positive value in GeoMean (NaN); Bounds' fast path for sorted unweighted samples and its scans over sorted weighted data (value at the first/last non-zero weight: start, step, advanced only past zero weights, left only at a hit or exhausted); Sort leaves the data unsorted only when s.Sorted or the values are found ascending (sort.Float64sAreSorted or a module helper decided to be that all-adjacent-pairs scan).",
+		Explain: "Structural necessary conditions decided statically (DESIGN.md §5 C09): Sample.Copy — Xs and Weights element-for-element copies of the same length (copy, append to an empty slice, or a full element loop), Weights nil exactly when the receiver's is, Sorted kept; vec.Concat — len(result) = Σ len(xss[i]) and argument i copied behind the arguments before it (front to back with a running position, appended in order, or filled from the back), for every i; vec.Vectorize(f)(xs) = Map(f, xs); engine A — Sample.Copy and the vec helpers return memory sharing nothing with their inputs, no query writes its argument, Sort writes exactly the documented paths; C-swap — sampleSorter.Swap exchanges (i,j) in both xs and weights, Sort hands both slices of the same receiver to the sorter and sets Sorted; engine B — the incremental recurrences of Mean, weighted Mean, GeoMean (log/exp), Variance (Welford) with the n-1 denominator, StdDev, weighted Sum, Weight, vec.Sum, the element formulas of Linspace, Logspace, Map; decision lists for empty input (NaN), len<=1 (variance 0), non-positive value in GeoMean (NaN); Bounds' fast path for sorted unweighted samples and its scans over sorted weighted data (value at the first/last non-zero weight: start, step, advanced only past zero weights, left only at a hit or exhausted); Sort leaves the data unsorted only when s.Sorted or the values are found ascending (sort.Float64sAreSorted or a module helper decided to be that all-adjacent-pairs scan). Added after the mutation sweep (DESIGN §13): delegation decisions of Sample.Bounds/MeanCI/Variance/StdDev, the unsorted-weighted Bounds recurrences, every-element coverage of Linspace/Logspace/Map.",
 		Assume:  []string{"A4 reals", "A2"},
 		Undec:   []string{"closeness to the exact value under rounding", "order independence beyond rounding", "that sort.Sort/sort.Float64s sort (trusted library)"},
 	}
